@@ -31,7 +31,7 @@ FLOORS = {'countif_cases': 1000, 'countifs_cases': 200, 'match_cases': 500,
           'countifs_rectangles': 100, 'choose_with_ranges': 100,
           'criteria_vs_operator_cases': 50,
           'approximate_text_matches': 100,
-          'lookup_history_cases': 300}
+          'lookup_history_cases': 300, 'empty_operand_criteria': 150}
 ANCHOR_FUNCS = {
     'xlcalculator/xlfunctions/lookup.py': ['MATCH', 'VLOOKUP', 'CHOOSE'],
     'xlcalculator/xlfunctions/statistics.py': ['COUNTIF', 'COUNTIFS'],
@@ -222,6 +222,32 @@ def run(ctx):
                           {'want': want, 'counter': 'countif_cases',
                            'data': col, 'group': f'COUNTIF-lib:{op}:{ocls}'},
                           got)
+        B.maybe_flush()
+        # ---- a bare comparison prefix: the operand is the empty text (no cell
+        # of these columns holds one: zeros are numbers, not "nothing") -------
+        colz = [0, 0.0, rng.choice([1, 2.5, -1]), rng.choice(WORDS),
+                rng.choice(WORDS), rng.choice([0, 10])]
+        rng.shuffle(colz)
+        colz = colz[:rng.randint(2, 6)]
+        rgz = B.place([[v] for v in colz])
+        for op in OPS:
+            nz = sum(1 for c in colz if crit_holds(c, op, ''))
+            ctx.event('empty_operand_criteria')
+            B.add(f'=COUNTIF({rgz},{subject.lit(op)})',
+                  {'want': ('num', float(nz)), 'counter': 'countif_cases',
+                   'nt': ('COUNTIF', 'empty-operand', op, nz > 0),
+                   'data': colz, 'group': f'COUNTIF:empty-operand:{op}'})
+            if op in ('=', '<>', ''):
+                other = [rng.choice([1, 2, 0]) for _ in colz]
+                rgo = B.place([[v] for v in other])
+                n2 = sum(1 for c, o in zip(colz, other)
+                         if crit_holds(c, op, '') and crit_holds(o, '>=', 1))
+                B.add(f'=COUNTIFS({rgz},{subject.lit(op)},{rgo},">=1")',
+                      {'want': ('num', float(n2)),
+                       'counter': 'countifs_cases',
+                       'nt': ('COUNTIFS', 'empty-operand', op, n2 > 0),
+                       'data': [colz, other],
+                       'group': f'COUNTIFS:empty-operand:{op}'})
         B.maybe_flush()
         # ---- COUNTIFS: conjunction position by position ------------------------
         n = rng.randint(2, 8)
